@@ -41,3 +41,7 @@ mod c03_draw_iter;
 mod c12_driver;
 #[cfg(kani)]
 mod c19_test_image;
+#[cfg(kani)]
+pub mod wire;
+#[cfg(kani)]
+mod c01_e2e;
